@@ -21,14 +21,14 @@ def closure_origin(parent, cb):
 def c01_7(cx):
     """execute: (execute_query -> pop | execute_maybe_iterate) precede backdate_if_appropriate, diff_outputs and the single insert_memo; the memo is Memo::new(Some(new_value), zalsa.current_revision(), completed_query.revisions); insert_memo precedes claim_guard.drop(); returns None iff drop() reported a blocking transfer."""
     b = cx.fn(EXE + r"execute$")
-    eq = cx.one(b.calls(EXE + r"execute_query$"), "execute_query call")
-    it = cx.one(b.calls(EXE + r"execute_maybe_iterate$"), "execute_maybe_iterate call")
-    pop = cx.one(b.calls(r"^zalsa_local::ActiveQueryGuard::<'me>::pop$"), "active_query.pop")
-    ins = cx.one(b.calls(r"^function::IngredientImpl::<C>::insert_memo$"), "insert_memo in execute")
-    new = cx.one(b.calls(r"^function::memo::Memo::<C>::new$"), "Memo::new in execute")
-    drop = cx.one(b.calls(r"^function::sync::ClaimGuard::<'me>::drop$"), "claim_guard.drop()")
-    bd = cx.one(b.calls(F + r"backdate::<impl function::IngredientImpl<C>>::backdate_if_appropriate$"), "backdate_if_appropriate")
-    do = cx.one(b.calls(F + r"diff_outputs::<impl function::memo::MemoHeader>::diff_outputs$"), "diff_outputs")
+    eq = cx.one_call(b, EXE + r"execute_query$", "execute_query call")
+    it = cx.one_call(b, EXE + r"execute_maybe_iterate$", "execute_maybe_iterate call")
+    pop = cx.one_call(b, r"^zalsa_local::ActiveQueryGuard::<'me>::pop$", "active_query.pop")
+    ins = cx.one_call(b, r"^function::IngredientImpl::<C>::insert_memo$", "insert_memo in execute")
+    new = cx.one_call(b, r"^function::memo::Memo::<C>::new$", "Memo::new in execute")
+    drop = cx.one_call(b, r"^function::sync::ClaimGuard::<'me>::drop$", "claim_guard.drop()")
+    bd = cx.one_call(b, F + r"backdate::<impl function::IngredientImpl<C>>::backdate_if_appropriate$", "backdate_if_appropriate")
+    do = cx.one_call(b, F + r"diff_outputs::<impl function::memo::MemoHeader>::diff_outputs$", "diff_outputs")
     cx.order(eq, pop, "C::execute (execute_query) completes before the frame is popped into revisions")
     cx.dominated_by_any(ins, [pop, it], "insert_memo only after the body completed (pop or execute_maybe_iterate)")
     cx.dominated_by_any(bd, [pop, it], "backdating only after the body completed")
@@ -54,8 +54,8 @@ def c01_7(cx):
     # exactly one insert in execute; value-carrying inserts elsewhere are listed in C22.3
     # execute_query: seed before C::execute, value is C::execute's result
     q = cx.fn(EXE + r"execute_query$")
-    ce = cx.one(q.calls(r"^function::Configuration::execute$"), "C::execute call")
-    for s in cx.sites(q.calls(r"seed_active_query$"), 1, "seed_active_query"):
+    ce = cx.one_call(q, r"^function::Configuration::execute$", "C::execute call")
+    for s in cx.some_calls(q, r"seed_active_query$", 1, "seed_active_query"):
         cx.check(q.reaches(s, ce) and not q.reaches(ce, s), "old outputs/ids are seeded before the body runs, never after", s, key="seed-before-body")
         cx.flow(q, cx.arg(s, 0), [r"^\$4@Some\.0$"], [], "seeding uses the header passed by the caller", s)
     cx.skipped_only_if(q, q.calls(r"seed_active_query$")[0], VariantIn(r"^\$4$", {"None"}), "seeding skipped only if there is no old header", exits=[ce.bb])
@@ -66,7 +66,7 @@ def c01_7(cx):
 def c01_8(cx):
     """backdate is called only if old.can_backdate(new) and old.value().is_some_and(|v| C::values_equal(v, new_value)); can_backdate is true only if new.cycle_heads().is_empty() and !old.may_be_provisional() and new.durability >= old.durability; backdate copies old changed_at into the new revisions."""
     b = cx.fn(F + r"backdate::<impl function::IngredientImpl<C>>::backdate_if_appropriate$")
-    bd = cx.one(b.calls(BD + r"backdate$"), "backdate call")
+    bd = cx.one_call(b, BD + r"backdate$", "backdate call")
     can = CallIs(BD + r"can_backdate$", True, [r"^\$2\.header$", r"^\$4$"], desc="old_memo.header.can_backdate(revisions)")
     eq = CallIs(r"^std::option::Option::<T>::is_some_and$", True, [r"^function::memo::Memo::<C>::value\(\$2\)$"], desc="old_memo.value().is_some_and(values_equal)")
     cx.only_if(b, bd, can, "backdate only if can_backdate")
